@@ -147,6 +147,10 @@ FaultSys ==
     \/ (wr.pc = "append" /\ Injected(E) /\ E.call = "write" /\ E.kind = "data" /\ E.id = active /\ E.res >= 0
            /\ E.n = wr.calls[wr.ci] /\ E.res = wr.calls[wr.ci] \div 2 /\ FailAppendShort)
     \/ (wr.pc = "f.newactive" /\ Injected(E) /\ E.call = "write" /\ E.kind = "data" /\ E.id = wr.old /\ E.res < 0 /\ UNCHANGED fvars)
+    \* a SHORT write inside a merge (a piece of a copy, a hint entry): the half that reaches the output changes nothing
+    \* the model looks at - the failing retry of the rest is the FailMerge step, and the rest lands when the output's
+    \* writers are dropped, as after a write that failed entirely
+    \/ (wr.pc \in {"m.loop", "m.hint"} /\ Injected(E) /\ E.call = "write" /\ E.id = wr.out /\ E.res >= 0 /\ UNCHANGED fvars)
     \/ (wr.pc = "sync" /\ IsFailed("fsync", "data", active) /\ FailSync)
     \/ (wr.pc = "roll" /\ IsFailed("create", "data", active + 1) /\ FailRoll)
     \/ (wr.pc = "f.newactive" /\ IsCall("create", "data", active + 1) /\ FNewActive)
